@@ -56,4 +56,9 @@ impl Datamodel for RFsmExpressionDatamodel {
         unimplemented!()
     }
 
+    #[verifier::external_body]
+    fn internal_error_execution(&mut self) {
+        unimplemented!()
+    }
+
     // executeContent: the REAL body, extracted from src/datamodel/expression_engine.rs (see below)
